@@ -22,7 +22,7 @@ def run(tier):
     # one record per environment (a reset has two predictions: retried or not)
     envs = {}
     for r in t.records:
-        envs.setdefault(json.dumps([r["n"], r["auth"], r["fault"], r["cli"]], sort_keys=True), r)
+        envs.setdefault(json.dumps([r["n"], r["auth"], r["fault"], r["cli"], r.get("keyOk", True)], sort_keys=True), r)
     recs = list(envs.values())
     if tier == "quick":
         recs = [r for r in recs if r["auth"] == "digest" or r["fault"]["kind"] in ("none", "cut", "status")]
@@ -49,9 +49,9 @@ def run(tier):
     traces, owners = [], []
     for rec, c, obs in common.parallel_map(one, work):
         v.count()
-        what = "%d hosts, %s, fault %s at %s, %s level" % (rec["n"], rec["auth"], rec["fault"]["kind"],
+        what = "%d hosts, %s, %sfault %s at %s, %s level" % (rec["n"], rec["auth"], "" if rec.get("keyOk", True) else "--encrypt with an unusable key file, ", rec["fault"]["kind"],
                                                            "cluster request" if rec["fault"]["at"] == 0 else "host %d" % rec["fault"]["at"], obs["level"])
-        v.nontrivial((rec["n"], rec["fault"]["kind"], rec["fault"]["at"], obs["level"]))
+        v.nontrivial((rec["n"], rec["fault"]["kind"], rec["fault"]["at"], obs["level"], rec.get("keyOk", True)))
         left = obs["tmp_left"]
         rep = {"scenario": what, "hosts": [hp for _, hp in c.names], "faults": {k: list(f) for k, f in c.sc.faults.items()}, "temp_dir_after": left,
                "exit": obs.get("rc"), "stderr": (obs.get("stderr") or b"")[:600].decode("utf-8", "replace") if obs["level"] == "cli" else obs.get("err"),
@@ -61,7 +61,7 @@ def run(tier):
             continue
         if left:
             v.violation("a downloaded log is left in the temporary directory after the run (fault %s at %s of %d, %s level)" % (
-                rec["fault"]["kind"], "cluster" if rec["fault"]["at"] == 0 else "host %d" % rec["fault"]["at"], rec["n"], obs["level"]), rep)
+                rec["fault"]["kind"] if rec.get("keyOk", True) else "unusable key file with --encrypt", "cluster" if rec["fault"]["at"] == 0 else "host %d" % rec["fault"]["at"], rec["n"], obs["level"]), rep)
         # a fault is never turned into success with files left; success/failure itself is C08/C16 territory but reported as drift
         real_exit = (obs["rc"] if obs["level"] == "cli" else (1 if obs.get("failed") else 0))
         if (real_exit == 0) != (rec["exit"] == 0) and rec["fault"]["kind"] != "reset":
